@@ -112,14 +112,21 @@ func execCase(rc robustCase) (outcome, detail string) {
 				out = o
 			}
 		}
+		// every kind of reader a caller may hand over (the library may treat some of them specially)
 		n := 0
-		err := avro.ReadFile(bytes.NewReader(rc.Bytes), out, func(val unsafe.Pointer, rb *avro.ResourceBank) error {
-			n++
-			rb.Close()
-			return nil
-		})
-		if err != nil {
-			return "err", err.Error()
+		var firstErr error
+		for _, kind := range []string{"bytes", "buffer", "bufio", "strings", "eagereof"} {
+			err := avro.ReadFile(makeReader(kind, rc.Bytes), out, func(val unsafe.Pointer, rb *avro.ResourceBank) error {
+				n++
+				rb.Close()
+				return nil
+			})
+			if err != nil && firstErr == nil {
+				firstErr = err
+			}
+		}
+		if firstErr != nil {
+			return "err", firstErr.Error()
 		}
 		return "ok", fmt.Sprintf("%d records", n)
 	case "history":
